@@ -6,11 +6,11 @@
 namespace verif { std::vector<BlasCall> blas_log; }
 #endif
 namespace mm {
-verif::SpyStack* g_stack = 0;
+MMStack* g_stack = 0;
 
 bool build_group_dense(const Spec& s, XVisitor& v) {
-  if (s.head[0] != "M" && s.head[0] != "V") return false;
-  build_dense(s, v);
+  if ((s.head[0] != "M" && s.head[0] != "V") || s.flt) return false;
+  build_dense<double>(s, v);
   return true;
 }
 
@@ -18,7 +18,7 @@ bool build_group_dense(const Spec& s, XVisitor& v) {
 
 int main() {
   using namespace mm;
-  g_stack = new verif::SpyStack();
+  g_stack = new MMStack();
   std::string line;
   while (std::getline(std::cin, line)) {
     Words w = verif::words(line);
@@ -29,23 +29,32 @@ int main() {
       else std::cout << "cfg " << pw << " MISMATCH\n";
       continue;
     }
-    if ((w[0] != "P" && w[0] != "Q") || w.size() < 4) { std::cout << "bad-op\n"; continue; }
+    if (w[0] == "cfg" && w.size() == 3) {
+      long pw = adept::internal::Packet<double>::size, pwf = adept::internal::Packet<float>::size, want, wantf;
+      if (to_long(w[1], want) && want == pw && to_long(w[2], wantf) && wantf == pwf) std::cout << "cfg " << pw << " " << pwf << " ok\n";
+      else std::cout << "cfg " << pw << " " << pwf << " MISMATCH\n";
+      continue;
+    }
+    bool flt = w[0] == "Pf" || w[0] == "Qf";
+    if ((w[0] != "P" && w[0] != "Q" && !flt) || w.size() < 4) { std::cout << "bad-op\n"; continue; }
     size_t bar = 0;
     for (size_t i = 1; i < w.size(); ++i) if (w[i] == "|") { bar = i; break; }
     if (!bar) { std::cout << "bad-op\n"; continue; }
     Spec ls = parse_spec(w, 1, bar), rs = parse_spec(w, bar + 1, w.size());
     if (!ls.ok || !rs.ok) { std::cout << "bad-op\n"; continue; }
+    ls.flt = rs.flt = flt;
     Out out;
     try {
       bool x_left;
       if (is_plain_dense(rs)) x_left = true;
       else if (is_plain_dense(ls)) x_left = false;
       else throw BadOp();
-      XVisitor vis(w[0] == "P", x_left, x_left ? rs : ls, out);
+      XVisitor vis(w[0][0] == 'P', x_left, x_left ? rs : ls, out);
       const Spec& xs = x_left ? ls : rs;
       bool done = build_group_dense(xs, vis) || build_group_fixed_p(xs, vis) || build_group_fixed_a(xs, vis)
                || build_group_s1(xs, vis) || build_group_s2(xs, vis) || build_group_s3(xs, vis)
-               || build_group_s4(xs, vis) || build_group_s5(xs, vis) || build_group_s6(xs, vis);
+               || build_group_s4(xs, vis) || build_group_s5(xs, vis) || build_group_s6(xs, vis)
+               || build_group_flt_dense(xs, vis) || build_group_flt_fixed(xs, vis) || build_group_flt_s1(xs, vis) || build_group_flt_s2(xs, vis);
       if (!done) throw BadOp();
       std::cout << out.text << "\n";
     } catch (const BadOp&) {
